@@ -26,6 +26,8 @@ stored authority is the text `[user[:pw]@]host[:port]` that `make_netloc` writes
 contains ':').  `explicitPort`, `port`, `isDefaultPort`, `hostPortSubcomponent`, `str` are the accessors;
 `defaultPort scheme` looks the scheme up in the generated `DEFAULT_PORTS`.  `withPort e u p kind`:
 `kind` 0 = int-or-None, 1 = bool, 2 = any other type.
+Continued further in C17HeadlineMore4.lean (headline theorems for the proof modules added after the last refresh:
+C17More.lean; the GAPS block below cites them).
 -/
 namespace Yarl
 open NetlocLemmas HeadB ParseLemmas
@@ -184,7 +186,7 @@ theorem C17_headline_build_port_ascii (e : Env) (a : BuildArgs) (u : Url) (henc 
   C17_headline_build_port e a u henc hauth hhost _ (BuildFix.lowerAny_ascii e a.scheme hasc)
 
 /-- build(port=…) "rejects bools, non-integers and out-of-range values", with the exact precedence `build` has: the
-    authority/port conflict check comes first (a `port` of the wrong type counts as truthy there), so a bool /
+    authority/port conflict check comes first (it tests `port is not None`: ANY given port counts there), so a bool /
     non-int port is TypeError without `authority=` and ValueError with it; an int out of 0–65535 is ValueError in
     every case.  No guard.  (Cites `C17_build_port_rejects`, C17Build.lean.) -/
 theorem C17_headline_build_port_rejects (e : Env) (a : BuildArgs) :
@@ -225,6 +227,23 @@ GAPS:
  2. "the integer value of the port written": the port text is read by Python `int()` — `pyIntAscii` models
     surrounding whitespace, sign, underscores, leading zeros ("h:+8_0" is port 80); no theorem relates it to
     "decimal digits only" (it is more liberal, as Python is).  Non-ASCII digits go through the `intU` oracle.
+    PARTLY CLOSED by C17_pyInt_spec, C17_pyInt_core, C17_pyInt_strip_exists, C17_pyInt_strip_unique,
+    C17_digitsUnderscore_spec, C17_pyIntBody_props, C17_pyInt_rejects, C17_pyInt_alphabet, C17_pyInt_digits,
+    C17_splitNetloc_ascii_port, C17_splitNetloc_port_iff, C17_host_port_accepts, C17_portText_after_host,
+    C17_port_text_instances, C17_pyInt_non_ascii, C17_ctor_netloc_no_tab, C17_ctor_port_whitespace (C17More.lean), see
+    C17_headline_pyint_grammar_def, C17_headline_pyint_spec, C17_headline_pyint_strip, C17_headline_pyint_rejects,
+    C17_headline_pyint_digits, C17_headline_port_text_accepted_iff, C17_headline_port_text_instances,
+    C17_headline_ctor_port_whitespace (C17HeadlineMore4.lean).  Proved: for EVERY text `pyIntAscii s = some v` IFF `s`
+    is `ws* [+-]? digit (_? digit)* ws*` with value `v` (`PyIntForm`, a hand-written grammar of Python's base-10
+    `int(str)` — NEW TRUSTED definition, item 8); `int()` depends on the stripped text only; the rejections (empty /
+    only a sign; leading, trailing, double '_'; any other character behind the sign or another character); a plain digit
+    string reads as its decimal value with leading zeros allowed, and `natToStr` is the canonical inverse; for a
+    non-empty ASCII port text `split_netloc` accepts with port `p` IFF `int(text) = p` with 0 ≤ p ≤ 65535 and raises
+    ValueError otherwise; TAB / LF / CR never reach the port parser through the constructor, the other whitespace
+    `int()` strips does and is accepted around the digits.  STILL OPEN: that `PyIntForm` IS what CPython's `int()`
+    accepts in base 10 is by reading (language reference), not by proof; NON-ASCII port texts (`int()` accepts every
+    Unicode decimal digit and Unicode whitespace) are the `intU` oracle's answer, not computed
+    (C17_headline_port_text_instances, last part).
  3. CLOSED by C17_encodeUrl_rejects_bad_port, C17_build_rejects_bad_port, C17_ctor_fast_path_no_port
     (C17Ctor.lean), see C17_headline_ctor_rejects_bad_port, C17_headline_build_rejects_bad_port,
     C17_headline_fast_path_no_port, C17_headline_rejects_bad_port_instances (C17HeadlineMore.lean).
@@ -257,8 +276,27 @@ GAPS:
     scheme is NOT lower-cased in this mode, so `build(scheme="HTTP", host="h", port=80, encoded=True)` KEEPS ":80"
     (explicit_port 80) while the same call with encoded=False drops it (instance:
     C17_headline_encoded_build_port_instances); a port written inside `authority=` is stored verbatim in this mode.
+    SHARPENED by C17_default_port_table, C17_default_port_none, C17_port_default_iff, C17_default_port_build_vs_ctor,
+    C17_default_port_build_vs_ctor_instances (C17More.lean), see C17_headline_default_port_table,
+    C17_headline_port_default_iff, C17_headline_default_port_build_vs_ctor (C17HeadlineMore4.lean).  Proved: the
+    COMPLETE `DEFAULT_PORTS` table from the generated table (exactly http 80, https 443, ws 80, wss 443, ftp 21; every
+    other scheme string has none); for ANY URL `port = p` IFF `p` is written, or nothing is written and `p` is the
+    scheme default, `port` is None IFF nothing is written and the scheme has no default, and `port` fails exactly as
+    explicit_port does; and the contrast in one statement: `build(encoded=False, host=…, port = default of the
+    lower-cased scheme)` has explicit_port None and `port` = that default, whereas `URL(s)` whose port text is the
+    decimal text of `p` has explicit_port `p` also for the default — `URL.build(scheme="http", host="h", port=80)` and
+    `URL("http://h:80")` have the same str() and `port`, different explicit_port, and are NOT `==` (computed, both
+    backends).  The reading "written = STORED" stays an interpretation of the property text.
  5. is_default_port for a scheme without default and an explicit port: `some p = none` is false —
     stated; for an absent port and a scheme WITHOUT default it returns True (absent), as the code does.
+    CLOSED by C17_is_default_port_iff, C17_is_default_port_cases, C17_is_default_port_no_authority,
+    C17_is_default_port_instances (C17More.lean), see C17_headline_is_default_port_truth_table,
+    C17_headline_is_default_port_instances (C17HeadlineMore4.lean).  Proved, for any URL on which explicit_port answers:
+    is_default_port() is True IFF (no port written AND there is an authority) or (the written port is the scheme
+    default), False IFF (no port written and no authority) or (the written port is not the scheme default); with an
+    authority it is True IFF `port` equals the scheme default (possibly None).  OBSERVATION kept on record (not a
+    finding; "absent" in the property text): `URL("foo://h").is_default_port()` is True although `port` is None;
+    `URL("http://h:0")` is False (port 0 is distinct from absent).  Hypothesis: explicit_port does not raise.
  6. with_port on authorities not in `Written` form (encoded=True oddities): WAS "only the rejection half".
     PARTLY CLOSED by C11_arbitrary_authority_accessors, C11_arbitrary_authority_modifiers,
     C11_arbitrary_authority_frame_with_port, C11_arbitrary_authority_split_fails (C11Encoded.lean),
@@ -288,6 +326,29 @@ GAPS:
     under (E1) in general; that (E1) / (E2) authorities are stored ONLY through encoded=True is stated in the doc
     comments of C11ReachE.lean (witnesses inside `ReachE`), not proved as a theorem; URLs WITH a pre-filled cache are
     covered only through `ReachE` + `GoodAuthority` (constructor results) — see item 7.
+    FURTHER CLOSED by C17_port_views_of_net, C17_with_port_exact, C17_with_port_result, C17_with_port_readback,
+    C17_lazy_components_ok, C17_with_port_readback_fails, C17_with_port_readback_lazy_iff,
+    C17_with_port_encoded_instances, C17_with_port_readback_counterexample (C17More.lean), see
+    C17_headline_port_views_of_net, C17_headline_with_port_exact, C17_headline_with_port_readback,
+    C17_headline_with_port_readback_fails_for_bracket_in_host, C17_headline_with_port_readback_counterexample,
+    C17_headline_with_port_encoded_instances (C17HeadlineMore4.lean).  Proved, for ANY URL — cache or not, any stored
+    text — in terms of `net e u` (the cache when filled, else the lazy parse): the EXACT value of `with_port` with the
+    order of the checks (TypeError, ValueError out of range, ValueError without authority, then the error of reading the
+    stored authority is passed on, else the authority re-made); explicit_port / `port` / is_default_port() /
+    host_subcomponent / host_port_subcomponent / str() as functions of the four components (closes
+    "host_port_subcomponent on arbitrary stored text" whenever the components are readable); the read-back of
+    `with_port` from hypotheses on the raw components only (`UserOK`, no '@' in the raw host, `EncTrue.GoodHost`).  The
+    read-back under (E1) is no longer open: it is FALSE in general — C17_with_port_readback_fails: raw host with '[' but
+    no ':' ⟹ explicit_port of `with_port(p)` reads None — and on a URL WITHOUT cache explicit_port reads `p` IFF the raw
+    host is not of that shape.  The former remark "(E1) … a computed `example` … MODEL only: no theorem of a proof
+    module states it" is superseded: C17_with_port_readback_counterexample (C17More.lean) computes
+    `URL("http://[v1.[x]:80", encoded=True)`, `build(authority="[[x]", encoded=True)` and — through the AUTO-ENCODING
+    constructor, which ACCEPTS it — `URL("http://[v1.[x]:80")` (stores "v1.[x:80", caches raw_host "1.[",
+    `.with_port(81)` has explicit_port None).  So "with_port(p) sets any valid p" is FALSE on malformed-bracket
+    authorities (same root as KNOWN FINDINGS F-C03-bracket / F-C11-bracket), reachable WITHOUT encoded=True (MODEL-level
+    computation; no probe row of the real library is cited).  STILL OPEN: that (E2) authorities are stored only through
+    encoded=True is not a theorem; when `net e u` raises (unparsable stored port text) the views raise too
+    (C17_headline_with_port_exact, second part) and nothing more is said.
  7. (new) Side conditions of the theorems that close 1(b).  `AuthInput` / `BuildNetOK` cover ASCII hosts of the
     supported kinds (name / IPv4 text, IPv6 literal with optional zone id; not IPvFuture, not a bracketed non-IPv6
     host, not an empty host); IDN hosts: `NetlocCanon` of the constructor result is C03_idn_netlocCanon_ctor
@@ -295,5 +356,35 @@ GAPS:
     available only through C17_headline_cached_port_views, with `Written` checked on the concrete result and the
     cache agreement from `GoodAuthority` (C11_ctor_good_authority / C09_good_authority_of — not a theorem for every
     accepted input); 1(a) and C17_headline_ctor_is_default_port need no side condition.
+    CLOSED by C17_ctor_port_views_any, C17_bracket_ctor_port_views, C17_empty_host_ctor_port_views,
+    C17_idn_ctor_port_views, C17_bracket_ctor_instances, C17_empty_host_ctor_instances (C17More.lean), see
+    C17_headline_ctor_port_views_any, C17_headline_bracket_ctor_port_views, C17_headline_bracket_ctor_instances,
+    C17_headline_empty_host_ctor_port_views, C17_headline_empty_host_ctor_instances, C17_headline_idn_ctor_port_views
+    (C17HeadlineMore4.lean).  Proved: for EVERY accepted constructor input with an authority — no `AuthInput`, no
+    `GoodAuthority`, no `Written` — explicit_port is the input port (≤ 65535), `port`, is_default_port(),
+    host_port_subcomponent and str() follow sentence 2 (str() re-makes the authority from the CACHED components exactly
+    when a written port equals the scheme default, and prints the stored authority otherwise), `with_port` has its exact
+    result, and it reads back when the input is a Python string and the cached raw host is re-writable (no '@';
+    `EncTrue.GoodHost`).  Spelled out for bracketed non-IPv6 hosts (`BracketTextIn`, lower-cased text passes the bracket
+    check), the empty host (schemes that do not require a host; they have no default port) and an IDN host alone in the
+    authority (under `IdnaSaneAt`; with port / userinfo: the general theorem, no assumption).  NEGATIVE about the
+    printed TEXT (computed, both backends; sentence 2 is about the PORT and holds): `str(URL("http://[v1.x]:80/"))` is
+    "http://v1.x/" — with the default port the brackets of a bracketed host without ':' go as well, and `.with_port(81)`
+    stores "v1.x:81" (C17More.lean files this under KNOWN FINDING F-C07-default-port).  STILL OPEN: the read-back of
+    `with_port` on a constructor result whose cached raw host is NOT re-writable (malformed brackets — item 6: false
+    there); all of this is about the cached components — that they agree with what the stored text splits into is C09.
+ 8.  NEW.  Trusted definitions and side conditions introduced by the theorems that close 2, 4, 5, 6, 7 (C17More.lean).
+    (a) `PyIntForm` (with `PyWs`, `isPySpaceC`, the inductive `PyIntBody`) is a hand-written GRAMMAR of Python's
+    `int(str)` in base 10; that CPython's `int()` accepts exactly this language on ASCII text (whitespace set 9–13,
+    28–31, 32; single interior underscores; no base prefix) is by READING the language reference; the spec theorem
+    C17_headline_pyint_spec is relative to it.  It is spelled out in C17_headline_pyint_grammar_def.  (b) `pyStrip`,
+    `pyIntCore`, `EdgeFree` are definitional views of the model's own `pyIntAscii` (`C17_pyInt_core` is `rfl`).  (c) The
+    general layer is in terms of `net e u`: for a URL WITH a cache these are the CACHED components — the theorems say
+    nothing about whether the cache agrees with the stored text (C09; F-C09-bracket / F-C11-bracket are where it does
+    not).  (d) `EncTrue.GoodHost` / "raw host not of the shape '[' without ':'" is a hypothesis on the components, not
+    on the input of the entry point; by C17_headline_with_port_readback_counterexample it can fail for an input the
+    auto-encoding constructor ACCEPTS.  (e) The Python-level instance theorems are computed with `Oracles.empty` (ASCII
+    inputs), on both backends where stated; they are examples.  (f) The IDN theorem needs the assumption `IdnaSaneAt`
+    (trusted base, C16Idn.lean; checked at run time on the answers of a run, not proved).
 -/
 end Yarl
